@@ -98,6 +98,26 @@ def run(prop, tier, seed):
         else:
             rep.violation(f"witness of known finding {k['id']} behaves in a third way: {json.dumps(u)} / {json.dumps(o)}", {"script": w}, tag="w")
 
+    # known finding at WalManager level, reachable through GrafeoDB once the log has rotated: close + reopen skips the
+    # files before the checkpoint's file.  Witness: small operations until the log has two files, close, open.
+    if prop == "C05" and any(k["id"] == "SkipPreCheckpointFiles" for k in V.known_for("C05")):
+        k = [k for k in V.known_for("C05") if k["id"] == "SkipPreCheckpointFiles"][0]
+        w = [{"a": "op", "kind": "cnode", "x": i} for i in range(60)] + [{"a": "close"}, {"a": "open"}]
+        sp = os.path.join(wd, "wrot.ndjson")
+        V.write_ndjson(sp, [{"mode": "Sync", "batch": 3, "script": w}])
+        tpw = os.path.join(wd, "wrot-trace.ndjson")
+        V.gv(["wal", "--script", sp, "--out", tpw, "--dir", os.path.join(wd, "dbwrot"), "--maxlog", 400])
+        evw = V.read_ndjson(tpw)
+        o = [e for e in evw if e["a"] == "open"][0]
+        c = [e for e in evw if e["a"] == "close"][0]
+        last = max(e["i"] for e in evw if e["a"] == "op")
+        if len(c["st"]) >= 2 and o["ok"] and last not in o["match"]:
+            rep.known(k["id"], k["what_fails"] + " [" + k["site"] + "]")
+        elif len(c["st"]) >= 2 and o["ok"] and last in o["match"]:
+            rep.notes.append("known finding SkipPreCheckpointFiles does not reproduce (everything was there after close and reopen of a rotated log)")
+        else:
+            rep.violation(f"witness of known finding SkipPreCheckpointFiles behaves in a third way: close {json.dumps(c)[:200]} / open {json.dumps(o)[:200]}", {"script": w}, tag="w")
+
     # ------------------------------------------------------------ 3. conformance
     # C06 thorough probes a crash image at every byte of every append (and 12 bit flips each): fewer histories
     ntr, ln = (60, 30) if tier == "quick" else ((30, 40) if prop == "C06" else (600, 45))
